@@ -44,14 +44,17 @@ CHECKS = {
     "C16": retry("M |= sleep-handler protocol monitor for all decision sequences, before_sleep present/absent, "
                  "policy-level / call-level / both placements (decoy callbacks), awaitable variants", "5/C16"),
     "C07": ("model_checking",
-            "TLC exhaustive check of Breaker.tla (M vs reference) and of PolicyCall.tla + PolicyMon.tla (policy calls "
-            "in front of the breaker); graph replay on the real CircuitBreaker; every exported policy-level "
-            "behaviour replayed through Policy/AsyncPolicy call/execute with and without retry; TLC trace validation",
+            "TLC exhaustive check of Breaker.tla (M vs reference), of PolicyCall.tla + PolicyMon.tla (policy calls "
+            "in front of the breaker) and of ConcCalls.tla / PolicyConc.tla (concurrent calls, all interleavings); "
+            "graph replay on the real CircuitBreaker; every exported sequential and concurrent behaviour replayed "
+            "through Policy/AsyncPolicy; TLC trace validation (PolicyTrace.tla, ConcTrace.tla)",
             "M |= C07 at breaker level (reject while open up to the exact timeout, single probe, close clears history, "
-            "failed probe re-opens) and at policy level (no invocation and no record by a rejected call) for "
-            "sequences of calls with clock gaps around recovery_timeout_s; sequential histories only in this round",
-            "virtual clock; breaker observed through a delegating subclass; concurrent async interleavings are "
-            "covered by PolicyConc when built (see DESIGN)",
+            "failed probe re-opens), at policy level (no invocation and no record by a rejected call) for sequences "
+            "of calls with clock gaps around recovery_timeout_s, and under concurrency: PolicyConc.tla explores all "
+            "interleavings of 4 calls sharing a breaker (M |= P except the two known-finding clauses) and the "
+            "exported interleavings are replayed by driving real AsyncPolicy coroutines by hand",
+            "virtual clock; breaker observed through a delegating subclass; concurrent calls have no retry component "
+            "(one suspension point each); two known findings (anonymous settlements) are listed in known_findings.json",
             "5/C07"),
     "C08": ("model_checking",
             "TLC exhaustive check of PolicyCall.tla against PolicyMon.tla + replay of every exported behaviour + "
@@ -138,11 +141,14 @@ CHECKS = {
             "virtual clock with whole ticks; observation through allow()/record_*()/state only",
             "5/C06"),
     "C10": ("model_checking",
-            "TLC exhaustive check of Budget.tla (deque model vs grant-log reference) + graph replay on the "
-            "real Budget + TLC trace validation of recorded histories",
+            "TLC exhaustive check of Budget.tla (deque model vs grant-log reference) and of RetryLoop.tla with the "
+            "shared windowed budget + graph replay on the real Budget + behaviour replay through the real runners + "
+            "TLC trace validation of recorded histories",
             "M |= C10 (no over-grant, refusal only when full, remaining(), sliding-window bound) within "
-            "spec/BudgetMC_*.cfg; all transitions replayed on the real Budget; random histories "
-            "validated by TLC",
+            "spec/BudgetMC_*.cfg; all transitions replayed on the real Budget; random histories validated by TLC; "
+            "policy level: RetryLoop.tla with the windowed budget shared by two policy objects over three runs with "
+            "clock gaps (RetryMC_C10*.cfg), replayed through Retry/AsyncRetry, BUDGET_EXHAUSTED only when the "
+            "reference window is full",
             "virtual monotonic clock with whole ticks; observation through consume()/remaining()",
             "5/C10"),
 }
